@@ -42,5 +42,7 @@ def run(ctx):
     # what a custom recogniser sees must not depend on the position of a key: the require_* helpers scan every pair and decide
     # after the scan (a decision taken inside the scan depends on which key comes first)
     H_.r16_3_decisions(ctx, 'R13.8')
+    from . import round3 as R3c
+    R3c.r13_10_tag_collisions(ctx, 'R13.10')
     from . import memo_rules as M
     M.memo_sound(ctx, 'R13.M')
